@@ -9,6 +9,9 @@
 (*                                        -> exit 0, nothing written        *)
 (*   otherwise the planned artifacts are written; exit 1 iff that fails    *)
 (* Flags: -m and -c default to true, -e -o -a to false.                    *)
+(* The global switches -v / -d change what is printed, nothing else; a     *)
+(* command line without a usable directory writes nothing; the texts of    *)
+(* `doc example profile|certificate` are valid configurations that sign.   *)
 (* An observation carries the facts of the root entity under test (as in   *)
 (* Plan.tla), so that whether a plan exists is decided by Plan!Reasons.    *)
 (***************************************************************************)
@@ -41,8 +44,9 @@ Judge(o) ==
      (IF MustWrite(o) /\ ~o.rootChanged THEN {"the planned certificate was not (re)generated"} ELSE {})
   \cup (IF MustNotWrite(o) /\ o.anyChanged THEN {"files changed although nothing may be written: " \o o.what} ELSE {})
   \cup (IF o.otherChanged THEN {"a file that is no planned artifact changed"} ELSE {})
-  \cup (IF (~o.openOK \/ ~o.validOK) /\ o.exit # 1 THEN {"refusal must exit with status 1"} ELSE {})
-  \cup (IF o.openOK /\ o.validOK /\ o.exit # 0 THEN {"exit status must be 0"} ELSE {})
+  \* (rows marked exitFree - command lines without a usable directory - are judged for "nothing written" only)
+  \cup (IF ~o.exitFree /\ (~o.openOK \/ ~o.validOK) /\ o.exit # 1 THEN {"refusal must exit with status 1"} ELSE {})
+  \cup (IF ~o.exitFree /\ o.openOK /\ o.validOK /\ o.exit # 0 THEN {"exit status must be 0"} ELSE {})
 
 Bad == {k \in DOMAIN T : Judge(T[k]) # {}}
 ASSUME JsonSerialize("verdict.json", [ n |-> Len(T), failed |-> {[id |-> T[k].id, clauses |-> Judge(T[k])] : k \in Bad} ])
